@@ -23,6 +23,8 @@ type Sorts struct {
 	typeByID []types.Type
 	ufs      map[string]bool
 	n        int
+	atAxioms []string // element access as uninterpreted function + definitional axiom (good triggers)
+	atMacros []string // the same as a macro (no quantifier: good for model finding)
 }
 
 func newSorts() *Sorts {
@@ -453,9 +455,10 @@ func (s *Sorts) atFn(t types.Type) string {
 	if !s.ufs[name] {
 		s.ufs[name] = true
 		es := s.sortOf(t)
-		s.decls = append(s.decls,
-			fmt.Sprintf("(declare-fun %s ((Array Int %s) Slice Int) %s)", name, es, es),
-			fmt.Sprintf("(assert (forall ((e (Array Int %s)) (s Slice) (i Int)) (! (= (%s e s i) (select e (+ (s-off s) i))) :pattern ((%s e s i)))))", es, name, name))
+		s.atAxioms = append(s.atAxioms,
+			fmt.Sprintf("(declare-fun %s ((Array Int %s) Slice Int) %s)\n(assert (forall ((e (Array Int %s)) (s Slice) (i Int)) (! (= (%s e s i) (select e (+ (s-off s) i))) :pattern ((%s e s i)))))", name, es, es, es, name, name))
+		s.atMacros = append(s.atMacros,
+			fmt.Sprintf("(define-fun %s ((e (Array Int %s)) (s Slice) (i Int)) %s (select e (+ (s-off s) i)))", name, es, es))
 	}
 	return name
 }
